@@ -39,6 +39,13 @@ theorem getD_map_range {α : Type} (n : ℕ) (f : ℕ → α) (k : ℕ) (d : α)
   rw [List.getD_eq_getElem?_getD, List.getElem?_map, List.getElem?_range h]
   rfl
 
+theorem allIdxTail_spec : ∀ {L : List (List Ir)} {p : List ℕ → Bool},
+    allRange (firstDim L) (fun k => allIdxTail L k p) = true → ∀ x : Idx L, p x.toList = true
+  | [], _, h, _ => allRange_spec h 0 (by simp [firstDim])
+  | s :: L, p, h, (k, t) => by
+    have h1 := allRange_spec h k.val k.isLt
+    exact allIdxL_spec (L := L) h1 t
+
 theorem exists_of_validIdxL : ∀ {L : List (List Ir)} {l : List ℕ}, validIdxL L l = true → ∃ y : Idx L, y.toList = l
   | [], [], _ => ⟨(), rfl⟩
   | [], _ :: _, h => by simp [validIdxL] at h
@@ -261,7 +268,7 @@ theorem ortho_of_check (h : orthoCheck c = true) : Qreal c * (Qreal c)ᵀ = 1 :=
   have key : ∀ z z' : ℕ, z < c.D → z' < c.D → z ≤ z' →
       ∑ x : Idx c.irIn, den c.irIn (c.row z) x * den c.irIn (c.row z') x = if z = z' then 1 else 0 := by
     intro z z' hz hz' hle
-    have := all2_spec h z hz z' hz'
+    have := allRange_spec (allRange_spec h z hz) z' hz'
     simp only [Bool.or_eq_true, Nat.blt_eq] at this
     rcases this with h1 | h1
     · omega
@@ -341,7 +348,7 @@ theorem den_mRow (c : Cfg) (x y : Idx c.irIn) :
 theorem compl_of_check (hg : groupCheck c = true) (h : complCheck c = true) : (Qreal c)ᵀ * Qreal c = Pavg c := by
   obtain ⟨hne, _, _, hval⟩ := group_of_check hg
   ext x y
-  have h1 := tallZero_spec _ _ (allIdxL_spec h x) y
+  have h1 := tallZero_spec _ _ (allIdxTail_spec (p := fun x => tallZero c.irIn (subTargets c.irIn x c.group (mRow c x))) h x) y
   rw [den_subTargets c.irIn x.toList c.group _ (fun a ha => hval a ha x) y, den_mRow] at h1
   rw [Matrix.mul_apply]
   simp only [Matrix.transpose_apply, Pavg]
@@ -601,8 +608,19 @@ theorem prog_of_check {c : Cfg} {B : ℕ} {prog : List IR.Node} (h : progCheck c
     (b : ℕ) (hb : b < B) (z : Fin c.D) :
     (IR.interp (K := ℝ) env prog).getD (b * c.D + z.val) 0
       = ∑ x : Idx c.irIn, Qreal c z x * prodVars env c.irIn (varBases B b 0 c.irIn) x := by
-  simp only [progCheck, Bool.and_eq_true, beq_iff_eq] at h
-  have h1 := allRange_spec (allRange_spec h.2 b hb) z.val z.isLt
+  simp only [progCheck, Bool.and_eq_true] at h
+  have hi : b * c.D + z.val < B * c.D := by
+    have := z.isLt
+    calc b * c.D + z.val < b * c.D + c.D := by omega
+      _ = (b + 1) * c.D := by ring
+      _ ≤ B * c.D := Nat.mul_le_mul_right _ hb
+  have h1 := allRange_spec h.2 (b * c.D + z.val) hi
+  have hD : 0 < c.D := Nat.lt_of_le_of_lt (Nat.zero_le _) z.isLt
+  simp only [progRow] at h1
+  rw [show (b * c.D + z.val) / c.D = b by
+        rw [Nat.add_comm, Nat.add_mul_div_right _ _ hD, Nat.div_eq_of_lt z.isLt, Nat.zero_add],
+      show (b * c.D + z.val) % c.D = z.val by
+        rw [Nat.add_comm, Nat.add_mul_mod_self_right, Nat.mod_eq_of_lt z.isLt]] at h1
   rw [← IR.interp_natural, ← eval_expPoly c B b z env, ← Poly.eval_eq_of_beq env h1]
   rw [List.getD_eq_getElem?_getD, List.getD_eq_getElem?_getD, List.getElem?_map]
   cases (IR.interpPoly prog)[b * c.D + z.val]? <;> simp
